@@ -158,8 +158,13 @@ class World:
         if not cp.exists():
             return None
         doc = json.loads(cp.read_text())
+        current = str(doc.get("version"))
         if mode == "missing":
             doc.pop("version", None)
+        elif mode == "substring":
+            doc["version"] = current[: max(1, len(current) - 2)]  # e.g. 0.18 for 0.18.1
+        elif mode == "superstring":
+            doc["version"] = current + ".post1"
         else:
             doc["version"] = OTHER_VERSION if mode == "other" else None
         for entry in doc["codebase"]["files"].values():
@@ -168,7 +173,7 @@ class World:
             entry["loc"] = sum(m["value"] for m in entry["measurements"])
         cp.write_text(json.dumps(doc, indent=2))
         if self.cache is not None:
-            self.cache["version"] = OTHER_VERSION
+            self.cache["version"] = f"<{mode}>"
         for name, fn in (("report", cli.run_report), ("findings", cli.run_findings)):
             res = fn(self.root, ".")
             if res.exc:
@@ -256,6 +261,18 @@ class World:
         a, b = normalise(written), normalise(r[1])
         if a != b:
             return ("cached-differs-from-fresh", f"{first_diff(a, b)}")
+        # the overview the scan printed shows the totals it stored (scans repeated in one process must not accumulate)
+        from vf.props.c18 import COLS, parse_overview_text
+
+        cut = res.out.find("Summary")
+        try:
+            rows, totals = parse_overview_text(res.out[: cut if cut >= 0 else None])
+        except ValueError as e:
+            return ("scan-overview-unparseable", f"{e}\n{res.out[:600]}")
+        stored = written["codebase"]["totals"]
+        shown = {name: {c: v[0] for c, v in zip(COLS, cells)} for name, cells in rows}
+        if shown != {k: {c: v[c] for c in COLS} for k, v in stored.items()}:
+            return ("scan-overview-differs-from-report", f"overview printed by scan {shown} vs totals stored in the report {stored}")
         # re-analysis obligations
         fresh_files = r[1]["codebase"]["files"]
         must = set()
@@ -358,8 +375,10 @@ def alphabet(tier):
             ops.append(("exclude", src, e))
     ops.append(("other_version", "other"))
     ops.append(("other_version", "missing"))
+    ops.append(("other_version", "substring"))
     if tier != "quick":
         ops.append(("other_version", "null"))
+        ops.append(("other_version", "superstring"))
     for kind in ("drop", "add_missing", "checksum", "move"):
         for p in (["src/app.py", "gen/out.c"] if tier == "quick" else ["src/app.py", "lib/app.py", "src/util.js", "gen/out.c"]):
             ops.append(("alter", kind, p))
@@ -438,7 +457,7 @@ def make_machine(col):
             self._do(("exclude", src, e))
 
         @precondition(lambda self: self.world.scans > 0)
-        @rule(mode=st.sampled_from(["other", "missing", "null"]))
+        @rule(mode=st.sampled_from(["other", "missing", "null", "substring", "superstring"]))
         def other_version(self, mode):
             self._do(("other_version", mode))
 
